@@ -6,7 +6,8 @@ set -u
 ID=$1; WT=$2; DEST=$3; RUN=$4; shift 4; PKGS="$@"
 GO=/root/go/pkg/mod/golang.org/toolchain@v0.0.1-go1.26.2.linux-amd64/bin/go
 export GOTOOLCHAIN=local GOFLAGS=-mod=mod GOPROXY=off
-OUT=/verif/seeded/$ID; mkdir -p $OUT/demo
+NAME=${SEED_NAME:-$ID}   # SEED_NAME=C09b keeps a second seed of one property apart
+OUT=/verif/seeded/$NAME; mkdir -p $OUT/demo
 cp $WT/SEED_OUT/patch.diff $OUT/patch.diff; cp -r $WT/SEED_OUT/demo/. $OUT/demo/; cp $WT/SEED_OUT/notes.md $OUT/notes.md 2>/dev/null
 cd $WT && git checkout -q -- . && git clean -fdq -e SEED_OUT go/ 2>/dev/null
 cp $OUT/demo/*_test.go $WT/$DEST/ 2>/dev/null
@@ -17,6 +18,6 @@ echo "== demo WITH change"; (cd $WT/go && $GO test -vet=off -count=1 -run "$RUN"
 rm -f $WT/$DEST/zz_seed_demo*_test.go
 echo "== existing tests WITH change: $PKGS"; (cd $WT/go && $GO test -vet=off -count=1 $PKGS 2>&1 | tail -12) | tee $OUT/existing_tests_with.txt
 echo "== /verif check WITH change"
-cd /verif && VERIF_REPO=$WT VERIF_BUILD=/dev/shm/seedb-$ID bin/check $ID > $OUT/check_with.txt 2>&1; RC=$?
+cd /verif && VERIF_REPO=$WT VERIF_BUILD=/dev/shm/seedb-$NAME bin/check $ID > $OUT/check_with.txt 2>&1; RC=$?
 grep -E "^VIOLATION|^OK|KNOWN-FINDING|inconclusive" $OUT/check_with.txt | head -5; echo "check exit=$RC" | tee -a $OUT/check_with.txt
-rm -rf /dev/shm/seedb-$ID
+rm -rf /dev/shm/seedb-$NAME
